@@ -29,7 +29,12 @@ res = {}
 try:
     for p in props:
         t0 = time.time()
-        c = subprocess.run(["/verif/check", p, "--tier", tier, "--no-evidence"] + extra, capture_output=True, text=True, cwd="/verif", env=env)
+        for attempt in range(4):
+            c = subprocess.run(["/verif/check", p, "--tier", tier, "--no-evidence"] + extra, capture_output=True, text=True, cwd="/verif", env=env)
+            if c.returncode == 2 and "BUILD FAILED" in (c.stdout + c.stderr) and attempt < 3:
+                time.sleep(120)  # /verif/sim was being edited: try again
+                continue
+            break
         alll = (c.stdout + c.stderr).splitlines()
         viol = [l for l in alll if l.startswith("violation ")][:6] + [l for l in alll if l.startswith("VIOLATION")][:2] + [l for l in alll if "HARNESS ERROR" in l or "DETERMINISM" in l or "BUILD FAILED" in l][:3]
         res[p] = {"exit": c.returncode, "wall_s": round(time.time() - t0, 1), "lines": viol[:11]}
